@@ -1,11 +1,4 @@
-# Words for MANIFEST.json, per property.
+# Words for MANIFEST.json come from checks.d/<ID>.json ("manifest" key).
+from checks_config import PROPS
 HOOK_COMMITS = ["12109f0"]
-
-TEXTS = {
-    "C12": {
-        "technique": "model-based property testing: exhaustive short operation sequences and rapid random sequences against a Go map; generated concurrent histories checked for linearizability (porcupine) under the race detector",
-        "level": "Exploration. Every sequence of 5 (quick) / 6 (thorough) operations over 2 keys x 2 values is executed against a reference map (exhaustive within that bound), plus tens of thousands of random sequences up to 200 operations and script-level dict histories; concurrent behaviour is sampled: thousands of generated multi-goroutine histories are checked for linearizability and for data races. The history-dependent read/dirty/expunged states are reached by short sequences, which is why bounded enumeration is the right tool; schedules are sampled, not enumerated.",
-        "design_ref": "DESIGN.md §3 C12",
-        "note": "Trusted: Go's built-in map as reference, porcupine v1.3.0, the Go race detector; interleavings are whatever the Go scheduler produced in this run.",
-    },
-}
+TEXTS = {pid: cfg["manifest"] for pid, cfg in PROPS.items() if "manifest" in cfg}
